@@ -353,11 +353,11 @@ let run_xls (desc : string) (calls : string) : string =
 let run (args : string list) : string =
   match args with
   | "dim" :: h :: _ ->
-    (match Merge.get_dimension_h (bytes_of_hex h) with
+    (match Col26.get_dimension (bytes_of_hex h) with
      | Ok d -> "ok " ^ dims_str d
      | Err _ -> "err" | Panic -> "panic" | OutOfFuel -> "fuel")
   | ["dim"] ->
-    (match Merge.get_dimension_h [] with
+    (match Col26.get_dimension [] with
      | Ok d -> "ok " ^ dims_str d | Err _ -> "err" | Panic -> "panic" | OutOfFuel -> "fuel")
   | "xlsmc" :: rest ->
     let h = (match rest with h :: _ -> h | [] -> "") in
